@@ -159,11 +159,27 @@ theorem replacements_shadow_constants (consts : Repl) (repl : Repl) (k v : Text)
     (h : repl.lookup k = some v) : envOf consts (some repl) k = some v := by
   simp [envOf, h]
 
-/-- base entries (ref starting with `_`) and entries without ref keep their placeholders -/
+/-- base entries (ref starting with `_`) keep their placeholders -/
 theorem base_entry_not_substituted (isName : Char → Bool) (consts : Repl) (refs : List Text) (m : Entry)
     (ds : List Diag) (r : Text) (hr : m.ref = some ('_' :: r)) :
     (finishTop isName consts refs m ds).entry = m := by
   simp [finishTop, hr, wantsSubst]
+
+/-- **An entry without ref is rendered like any other**: its placeholders are filled from its merged replacements and
+the project constants, and unknown ones are reported (the code before the repair required a non-empty ref and left
+`{{x}}` standing in such a step, unreported). -/
+theorem refless_entry_substituted (isName : Char → Bool) (consts : Repl) (refs : List Text) (m : Entry)
+    (ds : List Diag) (hr : m.ref = some []) :
+    (finishTop isName consts refs m ds).entry.fields = (substFields isName (envOf consts m.replacement) m.fields).1 ∧
+    ∀ d ∈ (substFields isName (envOf consts m.replacement) m.fields).2, d ∈ (finishTop isName consts refs m ds).diags := by
+  have h : finishTop isName consts refs m ds =
+      ⟨{ m with fields := (substFields isName (envOf consts m.replacement) m.fields).1 },
+       ds ++ dupDiag refs [] ++ (substFields isName (envOf consts m.replacement) m.fields).2, addRef refs []⟩ := by
+    simp [finishTop, hr, wantsSubst]
+  rw [h]
+  refine ⟨rfl, ?_⟩
+  intro d hd
+  simp [hd]
 
 /-! ## failures are diagnostics -/
 
